@@ -203,7 +203,7 @@ def run(ctx, out, budget):
                 "covered text over up to 4 views and many live handles, lenient and strict roots; every sofa field, select_all and "
                 "leniency is read through every live handle of the view. Non-trivial = distinct sessions with >= 2 views and >= 3 handles.")
     rng = ctx.rng(0)
-    n = 250 if budget == "quick" else 4000
+    n = 250 if budget == "quick" else 24000
     evaluate(ctx, out, [gen_session(rng, rng.randint(20, 60)) for _ in range(n)])
 
 
